@@ -489,7 +489,7 @@ def run(ctx):
                 nprobe += r['n']
             if ctx.expired():
                 ctx.incomplete('deadline hit in parser/matcher product after %d of %d tasks' % (done, len(tasks)))
-                pool.pool.terminate()
+                pool.cancel()
                 break
     finally:
         pool.close()
